@@ -39,6 +39,7 @@ type plOpts struct {
 	SkipDefaultValues bool `json:"skipDefaultValues"`
 	ResolvePaths      bool `json:"resolvePaths"`
 	SkipNormalization bool `json:"skipNormalization"`
+	Extends           bool `json:"extends"` // !SkipExtends (same-file bases only can resolve)
 }
 
 type plArgs struct {
@@ -48,6 +49,7 @@ type plArgs struct {
 	Name string            `json:"name"`
 	Wd   string            `json:"wd"`
 	Home string            `json:"home"`
+	Main string            `json:"mainFile"`
 }
 
 func fmt64(f float64) string { return strconv.FormatFloat(f, 'g', -1, 64) }
@@ -111,9 +113,13 @@ func stageOf(text string) string {
 		return "name"
 	case strings.HasPrefix(text, "validating "):
 		return "schema"
+	case strings.Contains(text, "cannot override"):
+		return "merge"
 	case strings.Contains(text, "invalid interpolation format"), strings.Contains(text, "error while interpolating"),
 		strings.Contains(text, "required variable"):
 		return "interpolate"
+	case strings.Contains(text, "cannot extend service"), strings.Contains(text, "ircular reference"), strings.Contains(text, "extends"):
+		return "extends"
 	}
 	return ""
 }
@@ -150,7 +156,7 @@ func realLoad(raw json.RawMessage) any {
 		details.ConfigFiles = append(details.ConfigFiles, types.ConfigFile{Filename: fmt.Sprintf("%s/f%d.yaml", a.Wd, i), Config: t})
 	}
 	dict, err := loader.LoadModelWithContext(context.Background(), details, func(o *loader.Options) {
-		o.SkipExtends, o.SkipInclude = true, true
+		o.SkipExtends, o.SkipInclude = !a.Opts.Extends, true
 		o.SkipInterpolation = a.Opts.SkipInterpolation
 		o.SkipValidation = a.Opts.SkipValidation
 		o.SkipDefaultValues = a.Opts.SkipDefaultValues
@@ -313,6 +319,7 @@ var svcCatalogue = map[string][]any{
 	"blkio_config":      {M{"weight": 10, "device_read_bps": L{M{"path": "/dev/a", "rate": "1mb"}}}},
 	"credential_spec":   {M{"file": "f.json"}, M{"registry": "r"}},
 	"gpus":              {"all", L{M{"count": 1}}},
+	"extends":           {"b", M{"service": "c"}, M{"service": "a"}, M{"service": "b", "file": "other.yaml"}, "nosuch", M{"service": "c"}},
 	"x-custom":          {M{"a": L{1, "two"}}, "v", nil},
 }
 
@@ -393,7 +400,7 @@ func genEnv(r *rand.Rand) map[string]string {
 }
 
 func genOpts(r *rand.Rand) plOpts {
-	o := plOpts{ResolvePaths: true}
+	o := plOpts{ResolvePaths: true, Extends: r.Intn(2) == 0}
 	if r.Intn(3) == 0 { // non-default flag combinations
 		o.SkipInterpolation = r.Intn(3) == 0
 		o.SkipValidation = r.Intn(3) == 0
@@ -405,10 +412,13 @@ func genOpts(r *rand.Rand) plOpts {
 }
 
 func optsKind(o plOpts) string {
-	if o == (plOpts{ResolvePaths: true}) {
+	if o == (plOpts{ResolvePaths: true, Extends: true}) {
 		return "opts:default"
 	}
 	s := "opts:"
+	if !o.Extends {
+		s += "noExtends,"
+	}
 	for _, f := range []struct {
 		b bool
 		n string
@@ -432,7 +442,7 @@ func addCase(ctx *core.Ctx, kind string, docs []M, o plOpts, env map[string]stri
 	ctx.Count("pipeline:" + kind)
 	ctx.Count("pipeline:" + optsKind(o))
 	ctx.Count(fmt.Sprintf("pipeline:docs=%d", len(docs)))
-	ctx.Add("pipeline.load", plArgs{Docs: encDocs(docs), Opts: o, Env: env, Name: name, Wd: wd, Home: home})
+	ctx.Add("pipeline.load", plArgs{Docs: encDocs(docs), Opts: o, Env: env, Name: name, Wd: wd, Home: home, Main: wd + "/f0.yaml"})
 }
 
 // Stream is the extra stream registered for C01 and C02.
